@@ -421,7 +421,12 @@ class Exec:
             self.mem = dict(self.disk or {})
             if self.disk is None:
                 self.disk = None  # 'a' on a missing file: created empty, nothing readable yet
-            self.compare_object(self.vpk, self.mem, f'object opened in mode {mode!r}')
+            if self._opens % 2 == 0 or mode == 'r':
+                self.compare_object(self.vpk, self.mem, f'object opened in mode {mode!r}')
+            else:
+                # every other reopening for writing goes straight on to the next operations: nothing of the old content has
+                # been read when the directory is written again (whatever the object loads lazily is still unloaded)
+                self.run.count('reopened_for_writing_without_reading')
 
     def expect_rejected(self, label: str, fn) -> None:
         """Read-only archive: the mutation must raise and leave everything as it was."""
@@ -835,7 +840,7 @@ def main(run, shard=(0, 1)) -> None:
         shutil.rmtree(base, ignore_errors=True)
     probe.report(run)
     probe.check_reached(run)
-    run.require('files_created_relative_to_root', 'dir_limit_set_as_attribute', 'forged_crc_and_length_writes', 'folder_spellings_compared', 'operations', 'dirfile_writes', 'file_reads_compared', 'decoder_files_compared', 'name_forms_compared',
+    run.require('files_created_relative_to_root', 'dir_limit_set_as_attribute', 'forged_crc_and_length_writes', 'folder_spellings_compared', 'reopened_for_writing_without_reading', 'operations', 'dirfile_writes', 'file_reads_compared', 'decoder_files_compared', 'name_forms_compared',
                 'readonly_rejections', 'overwrites', 'deletes', 'writes_crossing_preload_limit', 'writes_over_64k',
                 'open_a', 'open_r', 'open_w')
 
